@@ -242,8 +242,10 @@ var (
 	ia      = addr.MustParseIA("1-ff00:0:110")
 	fpIDs   map[string]int64
 	dlog    = slog.New(slog.DiscardHandler)
-	slowRounds, abandoned int
+	slowRounds, abandoned, deadlineHits int
 )
+
+const roundTimeout = 10 * time.Second
 
 func mkPath(k int, fp int64) snet.Path {
 	p := spath.Path{
@@ -314,7 +316,7 @@ func runHist(tags string, h *histIn) {
 	var outs []string
 	stat := map[string]bool{}
 	done := 0
-	prevStart := time.Now()
+	histStart := time.Now()
 	for ri := range h.rounds {
 		r := &h.rounds[ri]
 		// what the exported getters say before the round (for the tags only)
@@ -341,7 +343,7 @@ func runHist(tags string, h *histIn) {
 		var err error
 		panicked := false
 		t := withTape(r.tape, r.d, func() {
-			ctx, cancel := context.WithTimeout(context.Background(), 30*time.Second)
+			ctx, cancel := context.WithTimeout(context.Background(), roundTimeout)
 			defer cancel()
 			defer func() {
 				if recover() != nil {
@@ -350,13 +352,18 @@ func runHist(tags string, h *histIn) {
 			}()
 			_, off, err = client.MeasureClockOffsetSCION(ctx, dlog, ntpcs, laddr, raddr, ps)
 		})
-		if time.Since(prevStart) > 2*time.Second {
-			// the 3 s interleaving window of the clients may have passed: the request forms are no longer
-			// determined by the history; drop this round and end the history here
+		hitDeadline := time.Since(start) >= roundTimeout
+		if hitDeadline {
+			// the round did not end before its context did although every request is answered at once:
+			// recorded as it is (the clients that never probed show up as non-participants)
+			deadlineHits++
+		} else if time.Since(histStart) > 2*time.Second {
+			// every earlier exchange of this history is at most this old; beyond 2 s the 3 s interleaving
+			// window of a client may have passed and the request forms are no longer determined by the
+			// history (a history normally takes some 10 ms): drop this round and end the history here
 			slowRounds++
 			break
 		}
-		prevStart = start
 		cls := 0
 		if err != nil {
 			cls = 2
@@ -416,7 +423,7 @@ func runHist(tags string, h *histIn) {
 		}
 		outs = append(outs, lib.L(lib.L(cl...), lib.I(int64(cls)), lib.I(int64(off)), lib.I(int64(t.pos))))
 		done++
-		if panicked {
+		if panicked || hitDeadline {
 			break // the clients' state is no longer defined by the history
 		}
 	}
